@@ -301,3 +301,11 @@ mod tests {
         Ok(())
     }
 }
+
+#[cfg(simple_dns_verif)]
+impl<'a> TXT<'a> {
+    /// verification hook: raw bytes of every character-string of this record, in order
+    pub fn verif_strings(&self) -> Vec<&[u8]> {
+        self.strings.iter().map(|s| &s.data[..]).collect()
+    }
+}
